@@ -93,7 +93,7 @@ def cases(tier, seed, prop):
     rnd = random.Random(seed)
     L = 4 if tier == 'quick' else 5
     out = [{'s': s, 'g': 'exh'} for s in gens.all_strings(gens.MATH_ALPHA, L)]
-    n = 8000 if tier == 'quick' else 100000
+    n = 16000 if tier == 'quick' else 100000
     for _ in range(n // 2):
         out.append({'s': ''.join(rnd.choice(gens.MATH_ALPHA + ['10', '0', '.5', '(1+2)', '-', 'a', '٣', '()', '(2)', ')(', '(3)(4)', '+()', 'foo', ' = ', 'x', '$', ',', '))', ') )', '1.2.3', '..', '\u00b2', '\u2460', '\u00bd']) for _ in range(rnd.randint(6, 14))), 'g': 'rand'})
     for _ in range(n):
